@@ -15,7 +15,7 @@ struct _list  { size_t len; };
 struct _bst   { size_t len; size_t internal; };   /* internal: number of M_SRC_INTERNAL sources in it */
 struct _map   { size_t len; size_t internal; };
 struct _queue_itr { m_queue_t *q; size_t idx; bool removed; };
-struct _bst_itr   { m_bst_t *t; size_t idx; };
+struct _bst_itr   { m_bst_t *t; size_t idx; bool removed; };
 struct _map_itr   { m_map_t *m; size_t idx; };
 struct _list_itr  { m_list_t *l; size_t idx; };
 
@@ -58,6 +58,7 @@ size_t g_others_running;     /* number of OTHER modules of the context that are 
 bool g_alloc_fails, g_pipe_full; ps_priv_t *g_msg; ps_priv_t *g_pmsg; size_t g_P0, g_e0, g_u0, g_cb0;     /* environment of one send: allocation outcome, recipient pipe full?, the caller's message */
 int g_regtmr_ret, g_pollinit_ret, g_dereg_ret, g_mapput_ret; m_mod_t *g_oldmod; ev_src_t *g_newsrc; struct _bst *g_set; bool g_key_present; int g_bstins_ret; int g_loopstart_ret, g_recvdrv_ret; uint8_t g_loopstop_ret;
 bool g_entry; ev_src_t *g_oldsub; int g_regcomp_ret;
+struct _bst_itr *g_bit; size_t g_L0[8], g_PS[9], g_p0;
 struct _map_itr *g_mit; struct _map *g_tab; const char *g_topic; bool g_exact; size_t g_match_at, g_m0, g_el0, g_f0, g_h0, g_t0, g_fr0, g_r0, g_fc0;
 int g_open_fd;       /* the (single) descriptor of the focus object that is currently open and owned by the library, or -1 */
 m_map_t *g_subs;
